@@ -13,8 +13,8 @@ ROOT = os.path.dirname(os.path.dirname(os.path.abspath(__file__)))
 sys.path.insert(0, ROOT)
 from engine import common, mbt, tlc  # noqa: E402
 
-CKINDS = ["builtin", "builtin2", "module", "nested", "baseonly", "custominit", "kwonly", "mid", "local", "dynamic"]
-AKINDS = ["none", "json", "picklable", "unpicklable", "socket", "unreprable", "mixed"]
+CKINDS = ["builtin", "builtin2", "module", "nested", "baseonly", "custominit", "kwonly", "mid", "local", "dynamic", "eqhash", "dcerr"]
+AKINDS = ["none", "json", "picklable", "unpicklable", "socket", "unreprable", "mixed", "const", "loadfail"]
 ENCS = ["json", "dict", "pickle"]
 FOREIGN = ["func", "cls", "inst", "module", "nested_cls", "nested_func", "os_system", "eval", "object"]
 GOOD = ["exc", "nested_exc", "builtin_exc", "baseonly", "custominit", "sub_exc"]
@@ -53,6 +53,10 @@ def gen_c19(seed: int, tier: str) -> List[Dict[str, Any]]:
         cases.append({"g": [{"c": c, "a": a, "cause": 0, "context": 0, "sup": False}], "enc": enc, "root": 1})
         cases.append({"g": [{"c": "module", "a": "json", "cause": 2, "context": 0, "sup": True}, {"c": c, "a": a, "cause": 0, "context": 0, "sup": False}],
                       "enc": enc, "root": 1})
+    # (b2) equal-valued but distinct exception objects linked to each other (value equality must not be taken for identity)
+    for c, enc in itertools.product(["eqhash", "dcerr", "module", "builtin"], ENCS):
+        for shape in ([(2, 0), (0, 0)], [(2, 0), (3, 0), (0, 0)], [(0, 2), (0, 1)], [(2, 3), (3, 0), (0, 1)]):
+            cases.append({"g": [{"c": c, "a": "const", "cause": x, "context": y, "sup": False} for (x, y) in shape], "enc": enc, "root": 1})
     # (c) random graphs up to 4 nodes and chains up to depth 6
     for _ in range(600 if q else 12000):
         n = rng.randint(2, 4)
